@@ -166,7 +166,10 @@ class Prop:
     # ------------------------------------------------------------------------------
     def run(self, tier='quick', seed=0, only=None, verbose=False, keep=False):
         t0 = time.time()
-        wd = os.path.join(WORK, self.id)
+        # partial runs (--only) get their own work directory and never overwrite the property's evidence file
+        self._partial = bool(only)
+        wd = os.path.join(WORK, self.id + ('_partial_%d' % os.getpid() if only else ''))
+        self._wd = wd
         shutil.rmtree(wd, ignore_errors=True)
         os.makedirs(wd, exist_ok=True)
         os.makedirs(os.path.join(VERIF, 'replay'), exist_ok=True)
@@ -397,6 +400,8 @@ class Prop:
                     os.remove(p)
                 except OSError:
                     pass
+        if getattr(self, '_partial', False) and not keep:
+            shutil.rmtree(wd, ignore_errors=True)
         if violations:
             return 1
         if undecided:
@@ -500,7 +505,8 @@ class Prop:
             # schema requires >= 1 for proof-level keys; an empty run is recorded honestly as 'other'
             ev['level'] = 'other'
             ev['coverage']['explanation'] = 'no obligation was discharged in this run: ' + '; '.join(list(undecided)[:3])
-        json.dump(ev, open(os.path.join(VERIF, 'evidence', self.id + '.json'), 'w'), indent=1)
+        evp = os.path.join(VERIF, 'evidence', self.id + '.json') if not getattr(self, '_partial', False) else os.path.join(self._wd, 'evidence_partial.json')
+        json.dump(ev, open(evp, 'w'), indent=1)
 
 
 def _parse_ll(path):
